@@ -2048,7 +2048,7 @@ ALL += [C01_SPACE_N_SAMPLES, C01_SPACE_N_TREATMENTS]
 # sample id = the sample's name (ids are ranks of sorted names) except in NPlatePerCellLine, whose dict is keyed by the integer
 # ids; an array of row numbers = `list nat`; the recorded answers of the Generator still unread = `ds`.
 _RG = dict(file="src/batchie/retrospective.py", out="SrcRetroGen.v", overload=True,
-           imports="Model.Encode Model.Screen Model.Retro Model.RetroHoldout Model.RetroInit Generated.SrcRetro")
+           imports="Model.Encode Model.Screen Model.Retro Model.Pairwise Model.RetroHoldout Model.RetroInit Generated.SrcRetro")
 _ST = {"s": "screen_t"}
 _LEN_Z = ("len(__l)", "zlen {l}", "Z")
 
@@ -2312,3 +2312,71 @@ C13_COMBO_FILTER = dict(
     raises=[("Dataset must have at least 2 treatments", 7)],
 )
 ALL += [C13_COMBO_FILTER]
+
+# PairwisePlateGenerator._generate_plates.  Treatment ids of the re-encoded combination screen are `nat` (ranks of its keys),
+# group / sample ids ints; np.argsort's answer is a recorded answer like the Generator's (its tie-break is implementation-defined).
+_IDM = "list list nat"
+_GM = "list list opt Z"
+_SCREEN_RENAMED_PW = ("Screen(treatment_names=__s.treatment_names, treatment_doses=__s.treatment_doses, observations=__s.observations, "
+                      "observation_mask=np.zeros(__s.size, dtype=bool), sample_names=__s.sample_names, plate_names=__n.astype(str), "
+                      "control_treatment_name=__s.control_treatment_name)")
+C13_PAIRWISE = dict(
+    _RG, cls="PairwisePlateGenerator", func="_generate_plates", name="src_pairwise_generate_plates",
+    pyparams=["self", "screen", "rng"],
+    params=[("ctrl", "name"), ("subset_size", "Z"), ("anchor_size", "Z"), ("screen", "screen_t"), ("ds", "list draw")],
+    returns="screen_t", return_state=["ds"], coerce=[("nat", "Z", "Z.of_nat {x}")], eqb={"name": "name_eqb"},
+    vars={"combo_mask": "bvec", "single_treatment_mask": "bvec", "combo_treatment_screen": "screen_t",
+          "single_treatment_screen": "opt screen_t", "unique_treatments": "list nat", "unique_treatment_counts": "list nat",
+          "anchor_dds": "list nat", "n_anchor_groups": "Z", "anchor_groups": _IDM, "remain_dds": "list nat", "n_remain_groups": "Z",
+          "remain_groups": _IDM, "groupings": _IDM, "n_groups": "Z", "num_groups": "Z", "group_lookup": "dict", "group_id": "Z",
+          "treatment_ids_in_group": "list nat", "treatment_id_in_group": "nat", "treatment_group_ids": _GM, "n_control": "Z",
+          "treatment_group_ids_sorted": "list list Z", "sample_id_col_vector": "list list Z", "grouping_tuples": "list list Z",
+          "unique_grouping_tuples": "list list Z", "new_plate_names": "list name", "idx": "Z", "unique_grouping_tuple": "list Z",
+          "mask": "bvec", "combo_screen_with_generated_plates": "screen_t", "sample_name": "name", "n_to_assign": "Z",
+          "eligible_plate_names": "list name", "assignments": "list name", "single_screen_with_generated_plates": "screen_t"},
+    prims=[
+        ("self.anchor_size", "anchor_size", "Z"),
+        ("CONTROL_SENTINEL_VALUE", "Generated.Consts.CONTROL_SENTINEL_VALUE", "Z"),
+        ("screen.treatment_ids == CONTROL_SENTINEL_VALUE", "control_entries ctrl screen'", "list bvec"),
+        ("np.any(__m, axis=1)", "any_in_rows {m}", "bvec", {"m": "list bvec"}),
+        ("~__v", "map negb {v}", "bvec", {"v": "bvec"}),
+        ("__v.any()", "existsb (fun b__ => b__) {v}", "bool", {"v": "bvec"}),
+        ("__s.subset(__v)", "subset_of {s} {v}", "subset_t", {"s": "screen_t", "v": "bvec"}),
+        ("__s.to_screen()", "to_screen {s}", "screen_t", {"s": "subset_t"}),
+        ("np.unique(__s.treatment_ids, return_counts=True)", "(unique_ids ctrl {s}, id_counts ctrl {s})", "(list nat * list nat)", _ST),
+        ("__a[:__n]", "slice_to {a} {n}", "list nat", {"a": "list nat", "n": "Z"}),
+        ("__u[__i]", "!take_at {u} {i}", "list nat", {"u": "list nat", "i": "list nat"}),
+        ("len(__a) // self.subset_size", "!floor_div (zlen {a}) subset_size", "Z", {"a": "list nat"}),
+        ("np.array_split(__a, __n)", "!array_split_z {a} {n}", _IDM, {"a": "list nat", "n": "Z"}),
+        ("np.setdiff1d(__a, __b)", "setdiff_sorted {a} {b}", "list nat", {"a": "list nat", "b": "list nat"}),
+        _LEN_Z,
+        ("np.vectorize(__d.get)(__s.treatment_ids)", "lookup_all {d} (screen_ids ctrl {s})", _GM, {"d": "dict", "s": "screen_t"}),
+        ("np.sum(__g == CONTROL_SENTINEL_VALUE)", "count_sentinel {g}", "Z", {"g": _GM}),
+        ("np.sort(__g, axis=1)", "!sort_rows {g}", "list list Z", {"g": _GM}),
+        ("__s.sample_ids[:, np.newaxis]", "sample_id_column {s}", "list list Z", _ST),
+        ("np.hstack([__a, __b])", "hstack2 {a} {b}", "list list Z", {"a": "list list Z", "b": "list list Z"}),
+        ("np.unique(__a, axis=0)", "unique_rows {a}", "list list Z", {"a": "list list Z"}),
+        ("np.array([''] * __s.size, dtype=object)", "blank_names (length {s})", "list name", _ST),
+        ("(__a == __t).all(axis=1)", "rows_equal {a} {t}", "bvec", {"a": "list list Z", "t": "list Z"}),
+        (_SCREEN_RENAMED_PW, "!screen_renamed {s} {n}", "screen_t", {"s": "screen_t", "n": "list name"}),
+        ("np.unique(__s.sample_names)", "sample_names {s}", "list name", _ST),
+        ("(__s.sample_names == __n).sum()", "Z.of_nat (vcount (map (in_sample {n}) {s}))", "Z", {"s": "screen_t", "n": "name"}),
+        ("np.unique(__s.plate_names[__s.sample_names == __n])", "plates_of_sample_named {s} {n}", "list name", {"s": "screen_t", "n": "name"}),
+        ("__a.combine(__b)", "!combine_screens {a} {b}", "screen_t", {"a": "screen_t", "b": "screen_t"}),
+    ],
+    expr_state_calls=[
+        ("np.argsort(-__c)", ["ds"], "argsort_desc {c} ds", "list nat", {"c": "list nat"}),
+        ("rng.permutation(__a)", ["ds"], "permutation_ints {a} ds", "list nat", {"a": "list nat"}),
+        ("rng.choice(range(__n), size=__k, replace=True)", ["ds"], "choice_range {n} {k} ds", "list nat", {"n": "Z", "k": "Z"}),
+        ("rng.choice(__a, size=__n, replace=True)", ["ds"], "choice_names {a} {n} ds", "list name", {"a": "list name", "n": "Z"}),
+    ],
+    assign_effects=[
+        ("treatment_group_ids[treatment_group_ids == CONTROL_SENTINEL_VALUE] = __v", "treatment_group_ids'", "!store_at_sentinel {state} {v}"),
+        ("new_plate_names[mask] = f'generated_plate_{__k}'", "new_plate_names'", "!set_where {state} mask' (gen_name (Z.to_nat {k}))"),
+        # the screen here is the Optional single_treatment_screen (assignment effects take their holes as they are): unwrapped
+        ("new_plate_names[__s.sample_names == __n] = assignments", "new_plate_names'",
+         "!(dor s__ <- unwrap {s}; store_where {state} (map (in_sample {n}) s__) assignments')"),
+    ],
+    raises=[("should be filtered before using this method", 6)],
+)
+ALL += [C13_PAIRWISE]
